@@ -184,10 +184,18 @@ def unit(u, res):
                 claim = equal_term(o.value, want)
         if why:
             claim = z3.BoolVal(False)
-        verdict, model = pr.prove('%s path' % name, o.pc, claim)
-        if verdict == 'sat':
+        from shapes import INT_POOL, FLOAT_POOL
+        div = [[z3.BitVec('hv_i', 64) == z3.BitVecVal(x, 64)] for x in INT_POOL] + [[z3.FP('hv_f', F64) == models.fp_from_py(x)] for x in FLOAT_POOL[:8]]
+        verdict, model = pr.prove('%s path' % name, o.pc, claim, diversify=div)
+        for mdl in ([model] + list(pr.extra_models)) if verdict == 'sat' else []:
             tag = o.state.notes[0][0] if o.state.notes else '?'
-            res.sat.append(dict(key='entry-point %s' % name, entry=name, level=level, form=form, typ=typ, stub_outcome=tag,
+            stub_val = None
+            if o.state.notes and tag != 'ERR':
+                try:
+                    stub_val = render_value(C.meta, o.state.notes[0][1].fields[0], mdl)
+                except Exception:
+                    stub_val = None
+            res.sat.append(dict(key='entry-point %s' % name, entry=name, level=level, form=form, typ=typ, stub_outcome=tag, stub_value=stub_val,
                                 why=why or 'result is not the projection of the evaluator\'s result',
                                 witness='%s with evaluator outcome %s: %s' % (name, tag, why or 'wrong projection')))
     if len(res.samples) < 1 and outs:
@@ -309,7 +317,7 @@ def replay_ce(ce):
     name, level, form, typ = ce['entry'], ce['level'], ce['form'], ce['typ']
     details = []
     bad = False
-    exprs = [REALISE.get(ce['stub_outcome'], REALISE['?'])[0], 'a = 1; a + 1', 'n = 0; n += 1; n', '(3, 4)', '1 +', 'k += 1; k', 'f(1)', 'k = k * 2; f(k)', 'f(2.5)',
+    exprs = [REALISE.get(ce['stub_outcome'], REALISE['?'])[0]] + literal_for(ce.get('stub_value')) + ['a = 1; a + 1', 'n = 0; n += 1; n', '(3, 4)', '1 +', 'k += 1; k', 'f(1)', 'k = k * 2; f(k)', 'f(2.5)',
              'k += 1; "s"', 'k += 1; true', 'k += 1; (k, k)', 'k += 1;']
     cx = dict(vars=[('k', ('Int', 1))], funcs=[('f', 'log')])
     for prof in ('dev', 'release'):
@@ -334,6 +342,30 @@ def replay_ce(ce):
         # behaviour is not
         return 'benign', ['repeated evaluation in a fresh context is not observable through this entry point']
     return ('reproduced' if bad else 'not_reproduced'), details or ['wrapper agrees with the projection on all realising expressions']
+
+
+def literal_for(v):
+    """source expressions that evaluate to the stub's concrete value (so that the native run sees the solver's witness)"""
+    if not v:
+        return []
+    v = tuple(v) if isinstance(v, list) else v
+    try:
+        if v[0] == 'Int' and v[1] is not None:
+            n = v[1]
+            if n >= 0:
+                return [str(n), '%d + 0' % n]
+            return ['-%d' % -n] if n > -2 ** 63 else ['-9223372036854775807 - 1']
+        if v[0] == 'Float' and isinstance(v[1], int):
+            import struct
+            x = struct.unpack('<d', struct.pack('<Q', v[1]))[0]
+            if x == x and x not in (float('inf'), float('-inf')):
+                return [repr(abs(x)) if x >= 0 and not str(x).startswith('-') else '-' + repr(abs(x))]
+            return ['1.0 / 0.0' if x > 0 else '-1.0 / 0.0'] if x == x else ['0.0 / 0.0']
+        if v[0] == 'Boolean':
+            return ['true' if v[1] else 'false']
+    except Exception:
+        pass
+    return []
 
 
 def native_projection(typ, r):
